@@ -7,16 +7,37 @@ Local Open Scope nat_scope.
 Lemma nonnil_ip ip : is_ip ip -> nonnil ip = Some ip.
 Proof. intros [H|H]; destruct ip; cbn in H; try discriminate; reflexivity. Qed.
 
-Lemma remote_ip_tcp ip : is_ip ip -> remote_ip (RTcp ip) = Some ip.
+Lemma remote_ip_tcp ip zone : is_ip ip -> remote_ip (RTcp ip zone) = Some ip.
 Proof. apply nonnil_ip. Qed.
-Lemma remote_ip_udp ip : is_ip ip -> remote_ip (RUdp ip) = Some ip.
+Lemma remote_ip_udp ip zone : is_ip ip -> remote_ip (RUdp ip zone) = Some ip.
 Proof. apply nonnil_ip. Qed.
 Lemma remote_ip_other ip : is_ip ip -> remote_ip (ROther (Some ip)) = Some ip.
 Proof. apply nonnil_ip. Qed.
 
-Lemma ip_addresses_accepted ip : is_ip ip ->
-  remote_ip (RTcp ip) = Some ip /\ remote_ip (RUdp ip) = Some ip /\ remote_ip (ROther (Some ip)) = Some ip.
-Proof. intros H. split; [exact (remote_ip_tcp ip H)|split; [exact (remote_ip_udp ip H)|exact (remote_ip_other ip H)]]. Qed.
+(* ... whatever the zone of the address object: a scoped (link-local) peer is an IP peer *)
+Lemma ip_addresses_accepted ip zone : is_ip ip ->
+  remote_ip (RTcp ip zone) = Some ip /\ remote_ip (RUdp ip zone) = Some ip /\ remote_ip (ROther (Some ip)) = Some ip.
+Proof. intros H. split; [exact (remote_ip_tcp ip zone H)|split; [exact (remote_ip_udp ip zone H)|exact (remote_ip_other ip H)]]. Qed.
+
+(* the zone is irrelevant to getRemoteAsIP *)
+Lemma remote_ip_zone_irrelevant ip z1 z2 :
+  remote_ip (RTcp ip z1) = remote_ip (RTcp ip z2) /\ remote_ip (RUdp ip z1) = remote_ip (RUdp ip z2) /\
+  remote_ip (RTcp ip z1) = remote_ip (RUdp ip z2).
+Proof. repeat split. Qed.
+
+(* refutation of "parse the printed form" (C03g): it agrees with getRemoteAsIP on every unzoned address and on
+   every other net.Addr, and rejects EVERY zoned TCP / UDP peer, which getRemoteAsIP accepts *)
+Lemma printed_form_refuted :
+  (forall ip, remote_ip_printed (RTcp ip []) = remote_ip (RTcp ip []) /\ remote_ip_printed (RUdp ip []) = remote_ip (RUdp ip [])) /\
+  (forall p, remote_ip_printed (ROther p) = remote_ip (ROther p)) /\
+  (forall ip zone, is_ip ip -> zone <> [] ->
+     remote_ip_printed (RTcp ip zone) = None /\ remote_ip_printed (RUdp ip zone) = None /\
+     remote_ip (RTcp ip zone) = Some ip /\ remote_ip (RUdp ip zone) = Some ip).
+Proof.
+  split; [intros ip; split; reflexivity|]. split; [intros p; reflexivity|].
+  intros ip zone H Hz. destruct zone as [|z zs]; [contradiction|].
+  repeat split; try reflexivity; apply nonnil_ip; exact H.
+Qed.
 
 Section Entry.
   Variable geo_cc : bytes -> option bytes.
